@@ -52,11 +52,16 @@ def make_input(ctx, kind, name="x"):
         return ctx.array(name, (2, 3)), None
     shape = {"image": (3, 2, 2), "scalar": (3, 2), "optical": (3, 2, 3), "series": (3, 2, 2), "vector-series": (3, 2, 2, 3),
              # time slices that have an axis of length one besides the time axis (a single row / column of voxels, a single component)
-             "series-col": (3, 1, 2), "series-row": (1, 3, 2), "vector-series-col": (3, 1, 2, 3), "vector1-series": (3, 2, 2, 1)}[kind]
+             "series-col": (3, 1, 2), "series-row": (1, 3, 2), "vector-series-col": (3, 1, 2, 3), "vector1-series": (3, 2, 2, 1),
+             # space-time images in three space dimensions: the time axis is axis 3 (depth x rows x cols x time [x components]); depth != number of time steps, and equal to it
+             "series-3d": (3, 2, 3, 2), "series-3d-cube": (2, 3, 2, 2), "vector-series-3d": (3, 2, 2, 2, 2)}[kind]
     arr = ctx.array(name, shape, sample=(0.0, 1.0))
-    d = ctx.reals("d" + name, 2, pos=True, sample=(0.5, 4.0))
-    o = ctx.reals("o" + name, 2, sample=(-3.0, 3.0))
+    sd = 3 if kind.endswith("-3d") or kind.endswith("-3d-cube") else 2
+    d = ctx.reals("d" + name, sd, pos=True, sample=(0.5, 4.0))
+    o = ctx.reals("o" + name, sd, sample=(-3.0, 3.0))
     kw = dict(dimensions=list(d), origin=list(o), name="probe")
+    if sd == 3:
+        return darsia.Image(arr, space_dim=3, scalar=kind != "vector-series-3d", series=True, time=[0.0, 2.5], **kw), arr
     if kind == "image":
         img = darsia.Image(arr, space_dim=2, scalar=False, **kw)
     elif kind == "scalar":
@@ -94,7 +99,7 @@ def snapshot_meta(img):
     return m
 
 
-THIN_KINDS = ("series-col", "series-row", "vector-series-col", "vector1-series")
+THIN_KINDS = ("series-col", "series-row", "vector-series-col", "vector1-series", "series-3d", "series-3d-cube", "vector-series-3d")
 
 
 @ob("C10.workflow", cases=product_cases(kind=KINDS, overwrite=(False, True), variant=("plain", "crop+meta", "series-fn"))
@@ -108,7 +113,7 @@ THIN_KINDS = ("series-col", "series-row", "vector-series-col", "vector1-series")
     note="correct_array / correct_metadata are an arbitrary pure affine function of the values with symbolic coefficients (optionally shape changing)")
 def c10_workflow(ctx, kind, overwrite, variant):
     a, b = ctx.real("a", sample=(-2.0, 2.0)), ctx.real("b", sample=(-1.0, 1.0))
-    newd = ctx.reals("nd", 2, pos=True, sample=(0.5, 4.0))
+    newd = ctx.reals("nd", 3 if "-3d" in kind else 2, pos=True, sample=(0.5, 4.0))
     meta = {"dimensions": list(newd), "name": "corrected"} if variant == "crop+meta" else {}
     P = Probe(a, b, crop=variant == "crop+meta", meta=meta, series_fn=variant == "series-fn")
     if variant == "inactive-attr":
@@ -130,7 +135,7 @@ def c10_workflow(ctx, kind, overwrite, variant):
         want = P.F(arr)
     elif series:
         sl = [arr[..., t] if inp.scalar else arr[..., t, :] for t in range(2)]
-        want = np.stack([P.F(s) for s in sl], axis=2)
+        want = np.stack([P.F(s) for s in sl], axis=inp.space_dim)
     else:
         want = P.F(arr)
     want_meta = dict(meta_before)
